@@ -4,4 +4,193 @@ import JS.MetaEnv
 import JS.Props.C03
 import JS.Props.C04
 namespace JS
+
+/-! ### `check_schema` as a consumer of the metaschema run -/
+
+/-- how `check_schema` re-types the outcome of `validate` -/
+def CheckResult.ofOutcome : Outcome Unit → CheckResult
+  | .ok () => .ok
+  | .invalid e => .schemaError e
+  | .raise e => .raise e
+  | .other x => .other x
+
+/-- the format-free class configuration `check_schema` evaluates with -/
+abbrev ClassDef.plainCfg (c : ClassDef) : Cfg := { c.cfg with formatChecker := none }
+
+theorem checkSchema_unfold (env : Env) (impl : FmtImpl) (g : Globals) (c : ClassDef)
+    (fuel : Nat) (s : Json) (st : RState) (hst : freshResolver env g c c.metaSchema = .ok st) :
+    checkSchema env impl g c fuel s =
+      (match validateM (eval env impl { c.cfg with formatChecker := none } fuel s c.metaSchema) st with
+       | (.ok (), _) => .ok
+       | (.invalid e, _) => .schemaError e
+       | (.raise e, _) => .raise e
+       | (.other x, _) => .other x) := by
+  unfold checkSchema
+  rw [hst]
+  rfl
+
+theorem checkSchema_ofOutcome (env : Env) (impl : FmtImpl) (g : Globals) (c : ClassDef)
+    (fuel : Nat) (s : Json) (st : RState) (hst : freshResolver env g c c.metaSchema = .ok st) :
+    checkSchema env impl g c fuel s =
+      CheckResult.ofOutcome (validateM (eval env impl { c.cfg with formatChecker := none } fuel s c.metaSchema) st).1 := by
+  rw [checkSchema_unfold env impl g c fuel s st hst]
+  rcases validateM (eval env impl { c.cfg with formatChecker := none } fuel s c.metaSchema) st with ⟨o, st'⟩
+  cases o <;> rfl
+
+/-- `check_schema` in terms of the EXHAUSTIVE run of the metaschema validator (budget-prefix law) -/
+theorem checkSchema_exhaustive (env : Env) (impl : FmtImpl) (g : Globals) (c : ClassDef)
+    (fuel : Nat) (s : Json) (st : RState) (hst : freshResolver env g c c.metaSchema = .ok st) :
+    checkSchema env impl g c fuel s =
+      CheckResult.ofOutcome
+        (match (eval env impl { c.cfg with formatChecker := none } fuel s c.metaSchema none st).errs,
+               (eval env impl { c.cfg with formatChecker := none } fuel s c.metaSchema none st).stop with
+         | [], .done => .ok ()
+         | [], .raised e => .raise e
+         | [], x => .other x
+         | e :: _, _ => .invalid e) := by
+  rw [checkSchema_ofOutcome env impl g c fuel s st hst]
+  exact congrArg _ (Props.C04.validate_spec env impl { c.cfg with formatChecker := none } fuel s c.metaSchema st)
+
+/-- the exhaustive-run reading of `validate`'s outcome -/
+def Out.verdict (o : Out) : Outcome Unit :=
+  match o.errs, o.stop with
+  | [], .done => .ok ()
+  | [], .raised e => .raise e
+  | [], x => .other x
+  | e :: _, _ => .invalid e
+
+theorem Out.verdict_schemaError (o : Out) (e : Err)
+    (h : CheckResult.ofOutcome o.verdict = .schemaError e) : o.errs.head? = some e := by
+  rcases o with ⟨es, stop, st'⟩
+  cases es with
+  | nil => cases stop <;> exact nomatch h
+  | cons e' es =>
+    have h' : CheckResult.schemaError e' = .schemaError e := h
+    injection h' with h'
+    subst h'
+    rfl
+
+theorem Out.verdict_ok (o : Out) :
+    CheckResult.ofOutcome o.verdict = .ok ↔ (o.errs = [] ∧ o.stop = .done) := by
+  rcases o with ⟨es, stop, st'⟩
+  cases es with
+  | nil =>
+    cases stop with
+    | done => exact ⟨fun _ => ⟨rfl, rfl⟩, fun _ => rfl⟩
+    | budget => exact ⟨nofun, fun h => nomatch h.2⟩
+    | raised e => exact ⟨nofun, fun h => nomatch h.2⟩
+    | fuel => exact ⟨nofun, fun h => nomatch h.2⟩
+    | miss q => exact ⟨nofun, fun h => nomatch h.2⟩
+  | cons e' es => exact ⟨nofun, fun h => nomatch h.1⟩
+
+theorem schemaError_head (env : Env) (impl : FmtImpl) (g : Globals) (c : ClassDef)
+    (fuel : Nat) (s : Json) (st : RState) (e : Err) (hst : freshResolver env g c c.metaSchema = .ok st)
+    (h : checkSchema env impl g c fuel s = .schemaError e) :
+    (eval env impl { c.cfg with formatChecker := none } fuel s c.metaSchema none st).errs.head? = some e := by
+  rw [checkSchema_exhaustive env impl g c fuel s st hst] at h
+  exact Out.verdict_schemaError _ e h
+
+theorem accepts_iff (env : Env) (impl : FmtImpl) (g : Globals) (c : ClassDef)
+    (fuel : Nat) (s : Json) (st : RState) (hst : freshResolver env g c c.metaSchema = .ok st) :
+    checkSchema env impl g c fuel s = .ok ↔
+      ((eval env impl { c.cfg with formatChecker := none } fuel s c.metaSchema none st).errs = []
+        ∧ (eval env impl { c.cfg with formatChecker := none } fuel s c.metaSchema none st).stop = .done) := by
+  rw [checkSchema_exhaustive env impl g c fuel s st hst]
+  exact Out.verdict_ok _
+
+/-! ### nothing but SchemaError -/
+
+/-- a draft's class evaluates with the draft's configuration, format checking off -/
+theorem Draft.classDef_plainCfg (d : Draft) : { d.classDef.cfg with formatChecker := none } = d.cfg none := rfl
+
+theorem checkSchema_benign (env : Env) (impl : FmtImpl) (g : Globals) (d : Draft)
+    (fuel : Nat) (s : Json) (st : RState)
+    (hst : freshResolver env g d.classDef d.metaSchema = .ok st)
+    (hb : Props.C03.Benign d false (eval env impl (d.cfg none) fuel s d.metaSchema (some 1) st).stop) :
+    (match checkSchema env impl g d.classDef fuel s with
+     | .ok => True
+     | .schemaError _ => True
+     | .raise e => Props.C03.Benign d false (.raised e)
+     | .other x => Props.C03.Benign d false x) := by
+  rw [checkSchema_unfold env impl g d.classDef fuel s st hst]
+  change (match (match validateM (eval env impl (d.cfg none) fuel s d.metaSchema) st with
+       | (.ok (), _) => CheckResult.ok
+       | (.invalid e, _) => .schemaError e
+       | (.raise e, _) => .raise e
+       | (.other x, _) => .other x) with
+     | .ok => True
+     | .schemaError _ => True
+     | .raise e => Props.C03.Benign d false (.raised e)
+     | .other x => Props.C03.Benign d false x)
+  unfold validateM
+  rcases hg : eval env impl (d.cfg none) fuel s d.metaSchema (some 1) st with ⟨es, stop, st'⟩
+  rw [hg] at hb
+  cases es <;> cases stop <;> first | exact hb | trivial
+
+/-! ### closed computations over the regenerated metaschemas and URI tables -/
+
+def CheckResult.isOk : CheckResult → Bool
+  | .ok => true
+  | _ => false
+
+theorem CheckResult.eq_ok_of_isOk {r : CheckResult} (h : r.isOk = true) : r = .ok := by
+  cases r <;> first | rfl | exact nomatch h
+
+/-- Boolean form of "every reference resolves locally to a shaped schema from every scope" -/
+def refsOk (env : Env) (d : Draft) (tops refs : List Str) (o : Option RState) : Bool :=
+  match o with
+  | none => false
+  | some st =>
+    tops.all fun top => refs.all fun r =>
+      match resolve env r { st with scopes := [top] } with
+      | (.ok (_, target), st') => Spec.shapedR d target && st'.fetchLog.isEmpty
+      | _ => false
+
+theorem refsOk_sound {env : Env} {d : Draft} {tops refs : List Str} {o : Option RState}
+    (h : refsOk env d tops refs o = true) :
+    ∃ st, o = some st ∧
+      ∀ top ∈ tops, ∀ r ∈ refs,
+        match resolve env r { st with scopes := [top] } with
+        | (.ok (_, target), st') => Spec.shapedR d target = true ∧ st'.fetchLog = []
+        | _ => False := by
+  cases o with
+  | none => exact nomatch h
+  | some st =>
+    refine ⟨st, rfl, fun top htop r hr => ?_⟩
+    have h1 := List.all_eq_true.1 (List.all_eq_true.1 h top htop) r hr
+    revert h1
+    rcases resolve env r { st with scopes := [top] } with ⟨res, st'⟩
+    cases res with
+    | ok p =>
+      rcases p with ⟨u, target⟩
+      intro h1
+      have h2 := Bool.and_eq_true_iff.1 h1
+      exact ⟨h2.1, List.isEmpty_iff.1 h2.2⟩
+    | raise e => intro h1; exact nomatch h1
+    | miss q => intro h1; exact nomatch h1
+
+/-! ### kernel evaluations, one lemma per draft (checked in parallel) -/
+
+theorem meta_shaped_d3 : Spec.shapedR .d3 Draft.d3.metaSchema = true := by decide +kernel
+theorem meta_shaped_d4 : Spec.shapedR .d4 Draft.d4.metaSchema = true := by decide +kernel
+theorem meta_shaped_d6 : Spec.shapedR .d6 Draft.d6.metaSchema = true := by decide +kernel
+theorem meta_shaped_d7 : Spec.shapedR .d7 Draft.d7.metaSchema = true := by decide +kernel
+
+/-- the whole check of a metaschema against itself, under the regenerated URI answers -/
+abbrev selfCheck (d : Draft) : CheckResult :=
+  checkSchema (metaEnv d) ⟨fun _ _ => none⟩ Globals.initial d.classDef 64 d.metaSchema
+
+theorem selfCheck_d3 : (selfCheck .d3).isOk = true := by decide +kernel
+theorem selfCheck_d4 : (selfCheck .d4).isOk = true := by decide +kernel
+theorem selfCheck_d6 : (selfCheck .d6).isOk = true := by decide +kernel
+theorem selfCheck_d7 : (selfCheck .d7).isOk = true := by decide +kernel
+
+theorem selfCheck_ok (d : Draft) : selfCheck d = .ok := by
+  apply CheckResult.eq_ok_of_isOk
+  cases d
+  · exact selfCheck_d3
+  · exact selfCheck_d4
+  · exact selfCheck_d6
+  · exact selfCheck_d7
+
 end JS
